@@ -57,7 +57,7 @@ Proof. exact view_autox_leaves. Qed.
 Theorem C07_views_same_derivation : forall (L : Type) (leaf : token -> option L) k heads t v,
   project leaf k heads t = Some v ->
   project (fun _ => Some tt) k heads t = Some (vmap (fun _ => tt) v) /\ tree_skeleton t = Some (skeleton_of v).
-Proof. intros L leaf k heads t v H. exact (conj (project_erase leaf k heads t v H) (project_skeleton leaf k heads t v H)). Qed.
+Proof. exact views_same_derivation. Qed.
 
 (* --- numbering: the records of a batch, in input order, are exactly the trees; the j-th tree of the s-th sentence (from 0)
    carries the numbers (s+1, j+1) and nothing else occurs; grouped form = flat form; within a sentence the tree numbers
